@@ -1,10 +1,726 @@
-//! C17 — cddl-derive: generated types round-trip every instance the schema admits; generation is deterministic.
+//! C17 — cddl-derive: generated types round-trip every instance the schema admits; generation
+//! is a deterministic function of the schema text.
+//! state = (schema of the documented mapping subset, JSON instance). The generator is the
+//! crate's own `generate_all_types` (cddl-derive/src/codegen.rs compiled into the explorer from
+//! /repo's working tree); the generated code of every schema is written into one scratch crate
+//! (`mc/target-c17/run`), compiled, and its round-trip function is run on every instance of a
+//! value universe that the real JSON validator accepts for the schema.
 #![allow(dead_code)]
 #[path = "/repo/cddl-derive/src/codegen.rs"]
 #[allow(dead_code, unused_imports, clippy::all)]
 pub mod codegen;
 
+use crate::core::*;
+use serde_json::{json, Value as J};
+use std::collections::{BTreeMap, BTreeSet};
+use std::process::Command;
+
+pub const WORK: &str = "/verif/mc/target-c17";
+
 pub fn generate(text: &str) -> Result<String, String> {
   let ast = cddl::cddl_from_str(text, false).map_err(|e| format!("parse: {e}"))?;
   codegen::generate_all_types(&ast, text, &codegen::CodegenOptions::default()).map_err(|e| format!("codegen: {e:?}"))
+}
+
+// ---------------------------------------------------------------- schema space
+
+const HELPERS: [(&str, &str); 4] =
+  [("child", "child = { a: uint }"), ("label", "label = tstr"), ("kind", "kind = \"a\" / \"b\""), ("my-rule", "my-rule = { ? b: int }")];
+
+/// field types of the documented mapping table (+ the helper rules they refer to)
+const TYPES: [&str; 25] = [
+  "tstr", "uint", "int", "float", "bool", "any", "[* tstr]", "[* int]", "{ * tstr => int }", "tstr / null", "child", "label", "kind", "[* child]", "int / tstr",
+  "{ * tstr => child }", "[+ int]", "my-rule", "tdate", "time", "uri", "regexp", "b64url", "bstr", "nint",
+];
+const KEYS: [&str; 6] = ["name", "my-field", "type", "userName", "match", "self"];
+
+#[derive(Clone, Debug)]
+pub struct Schema {
+  pub text: String,
+  /// object keys of the root map (None = the root is not a map)
+  pub keys: Option<Vec<String>>,
+  pub family: &'static str,
+}
+
+fn with_helpers(root: &str) -> String {
+  let mut s = format!("root = {root}\n");
+  for (n, r) in HELPERS {
+    // whole-identifier occurrence
+    let used = root.match_indices(n).any(|(i, _)| {
+      let b = root.as_bytes();
+      let before = i == 0 || !(b[i - 1].is_ascii_alphanumeric() || b[i - 1] == b'-' || b[i - 1] == b'_');
+      let j = i + n.len();
+      let after = j >= b.len() || !(b[j].is_ascii_alphanumeric() || b[j] == b'-' || b[j] == b'_');
+      before && after
+    });
+    if used {
+      s.push_str(r);
+      s.push('\n');
+    }
+  }
+  s
+}
+
+pub fn schemas(tier: Tier) -> Vec<Schema> {
+  let mut out = vec![];
+  // F1: one field: every key form x occurrence x type
+  for k in KEYS {
+    for occ in ["", "? "] {
+      for t in TYPES {
+        out.push(Schema { text: with_helpers(&format!("{{ {occ}{k}: {t} }}")), keys: Some(vec![k.to_string()]), family: "one-field" });
+      }
+    }
+  }
+  // F2: two fields whose Rust names can collide after snake-casing / keyword escaping
+  let keys2 = ["a", "my-field", "my_field", "myField", "type", "type_"];
+  let types2: Vec<&str> = match tier {
+    Tier::Quick => vec!["tstr", "[* int]", "tstr / null"],
+    Tier::Thorough => vec!["tstr", "int", "[* int]", "tstr / null", "child", "kind", "{ * tstr => int }"],
+  };
+  for (i, k1) in keys2.iter().enumerate() {
+    for (j, k2) in keys2.iter().enumerate() {
+      if i == j {
+        continue;
+      }
+      for o1 in ["", "? "] {
+        for o2 in ["", "? "] {
+          if tier == Tier::Quick && o1 != o2 {
+            continue;
+          }
+          for t1 in &types2 {
+            for t2 in &types2 {
+              if tier == Tier::Quick && t1 != t2 && *t1 != "tstr" {
+                continue;
+              }
+              out.push(Schema { text: with_helpers(&format!("{{ {o1}{k1}: {t1}, {o2}{k2}: {t2} }}")), keys: Some(vec![k1.to_string(), k2.to_string()]), family: "two-fields" });
+            }
+          }
+        }
+      }
+    }
+  }
+  // F3: root rules that are not maps, recursion, colliding rule names, keyword rule names
+  let tops = [
+    "root = tstr\n",
+    "root = [* int]\n",
+    "root = [* child]\nchild = { a: uint }\n",
+    "root = { * tstr => int }\n",
+    "root = int / tstr\n",
+    "root = \"a\" / \"b\" / \"c-d\"\n",
+    "root = child / null\nchild = { a: uint }\n",
+    "root = { v: int, ? kids: [* root] }\n",
+    "root = { ? n: node }\nnode = { ? r: root, v: int }\n",
+    "root = { a: my-rule, b: my_rule }\nmy-rule = { x: int }\nmy_rule = { y: tstr }\n",
+    "root = { a: type, b: match }\ntype = { x: int }\nmatch = tstr\n",
+    "root = { a: MyRule, b: my-rule }\nMyRule = { x: int }\nmy-rule = { y: tstr }\n",
+    "root = { a: { b: { c: int } } }\n",
+    "root = { a: [* [* int]] }\n",
+    "root = { a: { * tstr => [* tstr] } }\n",
+    "root = { a: child / label }\nchild = { a: uint }\nlabel = tstr\n",
+    "root = { a: \"x\" / \"y\" }\n",
+    "root = { a: child, ? b: child }\nchild = { ? a: uint, ? c: child }\n",
+    "root = { \"quoted key\": int, \"1\": tstr }\n",
+    "root = { a: bool / null, ? b: float / null }\n",
+  ];
+  for t in tops {
+    let keys = if t.starts_with("root = {") && !t.starts_with("root = { *") {
+      let ast = cddl::cddl_from_str(t, false).ok();
+      ast.and_then(|a| root_keys(&a))
+    } else {
+      None
+    };
+    out.push(Schema { text: t.to_string(), keys, family: "top-level" });
+  }
+  out
+}
+
+fn root_keys(a: &cddl::ast::CDDL) -> Option<Vec<String>> {
+  use cddl::ast::*;
+  let Rule::Type { rule, .. } = a.rules.first()? else { return None };
+  let Type2::Map { group, .. } = &rule.value.type_choices.first()?.type1.type2 else { return None };
+  let mut ks = vec![];
+  for (ge, _) in &group.group_choices.first()?.group_entries {
+    if let GroupEntry::ValueMemberKey { ge, .. } = ge {
+      match &ge.member_key {
+        Some(MemberKey::Bareword { ident, .. }) => ks.push(ident.ident.to_string()),
+        Some(MemberKey::Value { value, .. }) => ks.push(value.to_string().trim_matches('"').to_string()),
+        Some(MemberKey::Type1 { t1, .. }) => {
+          if let Type2::TextValue { value, .. } = &t1.type2 {
+            ks.push(value.to_string())
+          }
+        }
+        _ => {}
+      }
+    }
+  }
+  Some(ks)
+}
+
+/// value universe for one member / for non-map roots
+pub fn values() -> Vec<J> {
+  vec![
+    json!(null),
+    json!(true),
+    json!(0),
+    json!(1),
+    json!(-1),
+    json!(1.5),
+    json!(""),
+    json!("a"),
+    json!("b"),
+    json!("c-d"),
+    json!("2020-01-01T00:00:00Z"),
+    json!("http://a.b/c"),
+    json!([]),
+    json!([1]),
+    json!([1, 2]),
+    json!(["a"]),
+    json!([1, "a"]),
+    json!([[1], []]),
+    json!({}),
+    json!({"a": 1}),
+    json!({"a": "x"}),
+    json!({"x": 1, "y": 2}),
+    json!({"x": {"a": 1}}),
+    json!({"x": ["a"]}),
+    json!([{"a": 1}, {"a": 2}]),
+    json!({"a": 1, "c": {"a": 2}}),
+    json!({"v": 1, "kids": [{"v": 2}]}),
+    json!({"n": {"v": 1, "r": {}}}),
+    json!({"b": 1}),
+    json!({"x": 1}),
+    json!({"y": "s"}),
+    json!(18446744073709551615u64),
+    json!(9223372036854775807i64),
+    json!(-9223372036854775808i64),
+    json!({"b": {"c": 1}}),
+  ]
+}
+
+pub fn instances(s: &Schema, vals: &[J]) -> Vec<J> {
+  match &s.keys {
+    None => vals.to_vec(),
+    Some(ks) => {
+      // every key absent or holding a universe value (2 keys: full product), + one unknown extra key
+      let mut out = vec![];
+      let opts: Vec<Option<&J>> = std::iter::once(None).chain(vals.iter().map(Some)).collect();
+      let mut idx = vec![0usize; ks.len()];
+      loop {
+        let mut o = serde_json::Map::new();
+        for (k, &i) in ks.iter().zip(idx.iter()) {
+          if let Some(v) = opts[i] {
+            o.insert(k.clone(), v.clone());
+          }
+        }
+        out.push(J::Object(o));
+        let mut p = 0;
+        loop {
+          if p == idx.len() {
+            return out;
+          }
+          idx[p] += 1;
+          if idx[p] < opts.len() {
+            break;
+          }
+          idx[p] = 0;
+          p += 1;
+        }
+      }
+    }
+  }
+}
+
+// ---------------------------------------------------------------- names in generated code
+
+/// (type names, per struct its field names) read off the generated text
+fn declared_names(code: &str) -> (Vec<String>, Vec<(String, Vec<String>)>) {
+  let mut types = vec![];
+  let mut structs: Vec<(String, Vec<String>)> = vec![];
+  let mut cur: Option<usize> = None;
+  for l in code.lines() {
+    let t = l.trim_start();
+    let indent = l.len() - t.len();
+    for kw in ["pub struct ", "pub enum ", "pub type "] {
+      if indent == 0 {
+        if let Some(rest) = t.strip_prefix(kw) {
+          let name: String = rest.chars().take_while(|c| c.is_alphanumeric() || *c == '_').collect();
+          types.push(name.clone());
+          if kw == "pub struct " {
+            structs.push((name, vec![]));
+            cur = Some(structs.len() - 1);
+          } else {
+            cur = None;
+          }
+        }
+      }
+    }
+    if indent == 0 && t.starts_with('}') {
+      cur = None;
+    }
+    if let (Some(c), true) = (cur, indent == 4) {
+      if let Some(rest) = t.strip_prefix("pub ") {
+        if let Some((name, _)) = rest.split_once(':') {
+          structs[c].1.push(name.trim().to_string());
+        }
+      }
+    }
+  }
+  (types, structs)
+}
+
+fn duplicates(v: &[String]) -> Vec<String> {
+  let mut seen = BTreeSet::new();
+  let mut d = BTreeSet::new();
+  for x in v {
+    if !seen.insert(x.clone()) {
+      d.insert(x.clone());
+    }
+  }
+  d.into_iter().collect()
+}
+
+// ---------------------------------------------------------------- the scratch crate
+
+fn write_if_changed(path: &str, content: &str) {
+  if std::fs::read_to_string(path).map(|c| c == content).unwrap_or(false) {
+    return;
+  }
+  std::fs::write(path, content).expect("write");
+}
+
+fn module_text(code: &str) -> String {
+  format!(
+    "#![allow(dead_code, unused_imports, non_camel_case_types, non_snake_case, clippy::all)]\n{code}\n\
+     pub fn rt(v: &serde_json::Value) -> Result<serde_json::Value, String> {{\n    \
+       let t: Root = serde_json::from_value(v.clone()).map_err(|e| format!(\"D {{e}}\"))?;\n    \
+       serde_json::to_value(&t).map_err(|e| format!(\"S {{e}}\"))\n}}\n"
+  )
+}
+
+const STUB: &str = "pub fn rt(_: &serde_json::Value) -> Result<serde_json::Value, String> { Err(\"X not compiled\".into()) }\n";
+
+fn write_crate(mods: &[(usize, String)], tier: &str) {
+  let root = format!("{WORK}/run-{tier}");
+  std::fs::create_dir_all(format!("{root}/src/g")).expect("mkdir");
+  write_if_changed(
+    &format!("{root}/Cargo.toml"),
+    &"[package]\nname = \"c17run-TIER\"\nversion = \"0.1.0\"\nedition = \"2021\"\n\n[workspace]\n\n[dependencies]\nserde = { version = \"1\", features = [\"derive\"] }\nserde_json = \"1\"\nserde_with = { version = \"3\", features = [\"macros\"] }\nciborium = \"0.2\"\n\n[profile.dev]\nopt-level = 0\ndebug = 0\nincremental = true\n".replace("TIER", tier),
+  );
+  if !std::path::Path::new(&format!("{root}/Cargo.lock")).exists() {
+    let _ = std::fs::copy("/repo/Cargo.lock", format!("{root}/Cargo.lock"));
+  }
+  let mut modrs = String::new();
+  let mut table = String::from("pub fn table() -> Vec<(usize, fn(&serde_json::Value) -> Result<serde_json::Value, String>)> {\n    vec![\n");
+  for (k, text) in mods {
+    write_if_changed(&format!("{root}/src/g/s{k}.rs"), text);
+    modrs.push_str(&format!("pub mod s{k};\n"));
+    table.push_str(&format!("        ({k}, s{k}::rt),\n"));
+  }
+  table.push_str("    ]\n}\n");
+  modrs.push_str(&table);
+  write_if_changed(&format!("{root}/src/g/mod.rs"), &modrs);
+  // remove modules of an earlier, larger run
+  if let Ok(rd) = std::fs::read_dir(format!("{root}/src/g")) {
+    let keep: BTreeSet<String> = mods.iter().map(|(k, _)| format!("s{k}.rs")).chain(std::iter::once("mod.rs".to_string())).collect();
+    for e in rd.flatten() {
+      let n = e.file_name().to_string_lossy().to_string();
+      if !keep.contains(&n) {
+        let _ = std::fs::remove_file(e.path());
+      }
+    }
+  }
+  write_if_changed(
+    &format!("{root}/src/main.rs"),
+    "mod g;\nuse std::io::Write;\nfn main() {\n    let path = std::env::args().nth(1).expect(\"instances file\");\n    let inp: serde_json::Value = serde_json::from_str(&std::fs::read_to_string(path).unwrap()).unwrap();\n    \
+     let so = std::io::stdout();\n    let mut o = std::io::BufWriter::new(so.lock());\n    std::panic::set_hook(Box::new(|_| {}));\n    for (k, f) in g::table() {\n        let Some(list) = inp[k.to_string()].as_array() else { continue };\n        \
+     for (i, v) in list.iter().enumerate() {\n            let r = std::panic::catch_unwind(|| f(v));\n            match r {\n                Ok(Ok(j)) => { let _ = writeln!(o, \"{k} {i} ok {j}\"); }\n                \
+     Ok(Err(e)) => { let _ = writeln!(o, \"{k} {i} err {}\", e.replace('\\n', \" \")); }\n                Err(_) => { let _ = writeln!(o, \"{k} {i} err P panic\"); }\n            }\n        }\n    }\n    let _ = o.flush();\n}\n",
+  );
+}
+
+/// build the scratch crate; returns the module numbers rustc blames, or an engine error
+fn build_crate(tier: &str) -> Result<BTreeMap<usize, String>, String> {
+  let root = format!("{WORK}/run-{tier}");
+  let out = Command::new("cargo")
+    .args(["build", "--offline", "--manifest-path", &format!("{root}/Cargo.toml"), "--target-dir", &format!("{WORK}/target"), "--message-format", "short"])
+    .env("CARGO_NET_OFFLINE", "true")
+    .output()
+    .map_err(|e| format!("cargo: {e}"))?;
+  if out.status.success() {
+    return Ok(BTreeMap::new());
+  }
+  let err = String::from_utf8_lossy(&out.stderr);
+  let mut blamed = BTreeMap::new();
+  for l in err.lines() {
+    if let Some(p) = l.find("src/g/s") {
+      let rest = &l[p + 7..];
+      let num: String = rest.chars().take_while(|c| c.is_ascii_digit()).collect();
+      if let (Ok(k), true) = (num.parse::<usize>(), l.contains("error")) {
+        blamed.entry(k).or_insert_with(|| l.to_string());
+      }
+    }
+  }
+  if blamed.is_empty() {
+    return Err(err.lines().filter(|l| l.contains("error")).take(8).collect::<Vec<_>>().join(" | "));
+  }
+  Ok(blamed)
+}
+
+// ---------------------------------------------------------------- comparison
+
+/// do two JSON values denote the same data? numbers by value; an optional member holding null and an absent member are
+/// not told apart (the mapping table's Option<T> cannot, and the property does not say which of the two valid forms is kept)
+fn same_data(a: &J, b: &J) -> bool {
+  match (a, b) {
+    (J::Number(x), J::Number(y)) => {
+      if let (Some(i), Some(j)) = (x.as_i64(), y.as_i64()) {
+        return i == j;
+      }
+      if let (Some(i), Some(j)) = (x.as_u64(), y.as_u64()) {
+        return i == j;
+      }
+      x.as_f64() == y.as_f64()
+    }
+    (J::Array(x), J::Array(y)) => x.len() == y.len() && x.iter().zip(y).all(|(p, q)| same_data(p, q)),
+    (J::Object(x), J::Object(y)) => {
+      let keys: BTreeSet<&String> = x.keys().chain(y.keys()).collect();
+      keys.into_iter().all(|k| match (x.get(k), y.get(k)) {
+        (Some(p), Some(q)) => same_data(p, q),
+        (Some(J::Null), None) | (None, Some(J::Null)) => true,
+        _ => false,
+      })
+    }
+    _ => a == b,
+  }
+}
+
+fn observed_is_i64_overflow(msg: &str) -> bool {
+  msg.contains("invalid value: integer") || msg.contains("out of range") || msg.contains("did not match any variant")
+}
+
+fn valid(schema: &str, v: &J) -> bool {
+  catch(|| cddl::validate_json_from_str(schema, &v.to_string(), None).is_ok()).unwrap_or(false)
+}
+
+pub const F_INT64: &str = "C17-int-generated-as-i64";
+pub const F_TIME: &str = "C17-time-generated-as-i64";
+pub const F_PASCAL: &str = "C17-rule-names-colliding-in-pascal-case-are-merged";
+pub const F_GSOCKET: &str = "C17-group-rule-and-socket-extensions-share-a-type-name";
+
+/// recorded findings, attributed only on the committed state lists (key = schema text + instance)
+fn classify(v: &Viol) -> Option<String> {
+  let text = v.case["cddl"].as_str().unwrap_or("");
+  let inst = v.case.get("instance").map(|i| i.to_string()).unwrap_or_default();
+  let k = statelist::key(&[text, &inst]);
+  match v.kind.as_str() {
+    "valid-instance-not-deserialised" if v.observed.contains("floating point") && v.observed.contains("expected i64") && text.contains("time") => {
+      statelist::listed(F_TIME, k).then(|| F_TIME.to_string())
+    }
+    "valid-instance-not-deserialised" if v.observed.contains("expected i64") || (v.observed.contains("did not match any variant") && inst.contains("18446744073709551615")) => {
+      statelist::listed(F_INT64, k).then(|| F_INT64.to_string())
+    }
+    "valid-instance-not-deserialised" if v.observed.contains("did not match any variant of untagged enum MyRule") => statelist::listed(F_PASCAL, k).then(|| F_PASCAL.to_string()),
+    "duplicate-type-name" if text.contains("$$") => statelist::listed(F_GSOCKET, k).then(|| F_GSOCKET.to_string()),
+    _ => None,
+  }
+}
+
+pub fn run(tier: Tier) -> i32 {
+  quiet_panics();
+  let _g = silence_stderr();
+  let mut run = Run::new("C17", tier, "model_checking");
+  std::fs::create_dir_all(WORK).expect("work dir");
+  let ss = schemas(tier);
+  let vals = values();
+
+  // 1. generation: deterministic (twice in this process, once more in a fresh process), unique names
+  let mut mods: Vec<(usize, String)> = vec![];
+  let mut codes: Vec<Option<String>> = vec![];
+  for (k, s) in ss.iter().enumerate() {
+    let a = generate(&s.text);
+    let b = generate(&s.text);
+    if a != b {
+      run.viol(Viol { kind: "generation-not-deterministic".into(), case: json!({"cddl": s.text}), observed: "two generations in one process differ".into(), expected: "byte-identical code".into(), finding: None });
+    }
+    match a {
+      Ok(code) => {
+        let (types, structs) = declared_names(&code);
+        let dt = duplicates(&types);
+        if !dt.is_empty() {
+          run.viol(Viol { kind: "duplicate-type-name".into(), case: json!({"cddl": s.text}), observed: format!("type name(s) {dt:?} declared twice"), expected: "unique type names".into(), finding: None });
+        }
+        for (n, fs) in &structs {
+          let df = duplicates(fs);
+          if !df.is_empty() {
+            run.viol(Viol { kind: "duplicate-field-name".into(), case: json!({"cddl": s.text}), observed: format!("struct {n}: field name(s) {df:?} declared twice"), expected: "unique field names per type".into(), finding: None });
+          }
+        }
+        mods.push((k, module_text(&code)));
+        codes.push(Some(code));
+      }
+      Err(e) => {
+        run.viol(Viol { kind: "generation-fails".into(), case: json!({"cddl": s.text}), observed: e, expected: "code is generated for every schema of the documented mapping subset".into(), finding: None });
+        codes.push(None);
+      }
+    }
+  }
+  // the broad family: every syntactic document the parser accepts: same code (or the same error) every time
+  let broad = broad_family(tier);
+  let mut broad_n = 0u64;
+  let h_here: Vec<u64> = broad
+    .iter()
+    .map(|d| {
+      let a = catch(|| generate(d));
+      let b = catch(|| generate(d));
+      broad_n += 1;
+      if a != b {
+        run.viol(Viol { kind: "generation-not-deterministic".into(), case: json!({"cddl": d}), observed: "two generations in one process differ".into(), expected: "byte-identical code".into(), finding: None });
+      }
+      if let Ok(Ok(code)) = &a {
+        let (types, structs) = declared_names(code);
+        let dt = duplicates(&types);
+        if !dt.is_empty() {
+          let mut v = Viol { kind: "duplicate-type-name".into(), case: json!({"cddl": d}), observed: format!("type name(s) {dt:?} declared twice"), expected: "unique type names".into(), finding: None };
+          v.finding = classify(&v);
+          run.viol(v);
+        }
+        for (n, fs) in &structs {
+          let df = duplicates(fs);
+          if !df.is_empty() {
+            run.viol(Viol { kind: "duplicate-field-name".into(), case: json!({"cddl": d}), observed: format!("struct {n}: field name(s) {df:?} declared twice"), expected: "unique field names per type".into(), finding: None });
+          }
+        }
+      }
+      statelist::key(&[&format!("{a:?}")])
+    })
+    .collect();
+  let h_mapping: Vec<u64> = codes.iter().map(|c| statelist::key(&[&format!("{c:?}")])).collect();
+  // fresh process
+  let exe = std::env::current_exe().expect("exe");
+  match Command::new(exe).args(["c17-hashes", tier.name()]).output() {
+    Ok(o) if o.status.success() => {
+      let got: Vec<u64> = String::from_utf8_lossy(&o.stdout).lines().filter_map(|l| l.parse().ok()).collect();
+      let want: Vec<u64> = h_mapping.iter().chain(h_here.iter()).copied().collect();
+      if got.len() != want.len() {
+        println!("ENGINE-ERROR C17: hash list of the second process has {} entries, expected {}", got.len(), want.len());
+        return 2;
+      }
+      for (i, (g, w)) in got.iter().zip(want.iter()).enumerate() {
+        if g != w {
+          let text = if i < ss.len() { ss[i].text.clone() } else { broad[i - ss.len()].clone() };
+          run.viol(Viol { kind: "generation-differs-between-processes".into(), case: json!({"cddl": text}), observed: "a fresh process generated different code".into(), expected: "byte-identical code in every process".into(), finding: None });
+        }
+      }
+    }
+    other => {
+      println!("ENGINE-ERROR C17: second process failed: {:?}", other.map(|o| o.status));
+      return 2;
+    }
+  }
+
+  // 2. the generated code compiles
+  let mut not_compiled: BTreeSet<usize> = BTreeSet::new();
+  for _round in 0..6 {
+    write_crate(&mods, tier.name());
+    match build_crate(tier.name()) {
+      Ok(blamed) if blamed.is_empty() => break,
+      Ok(blamed) => {
+        for (k, line) in blamed {
+          run.viol(Viol { kind: "generated-code-does-not-compile".into(), case: json!({"cddl": ss[k].text}), observed: trunc(&line), expected: "the generated code compiles".into(), finding: None });
+          not_compiled.insert(k);
+          if let Some(m) = mods.iter_mut().find(|m| m.0 == k) {
+            m.1 = STUB.to_string();
+          }
+        }
+      }
+      Err(e) => {
+        println!("ENGINE-ERROR C17: scratch crate does not build for a reason outside the generated modules: {e}");
+        return 2;
+      }
+    }
+  }
+
+  // 3. every valid instance round-trips
+  let mut inst: BTreeMap<String, Vec<J>> = BTreeMap::new();
+  let mut n_inst = 0u64;
+  let mut n_cand = 0u64;
+  for (k, s) in ss.iter().enumerate() {
+    if codes[k].is_none() || not_compiled.contains(&k) {
+      continue;
+    }
+    let cands = instances(s, &vals);
+    n_cand += cands.len() as u64;
+    let ok: Vec<J> = cands.into_iter().filter(|v| valid(&s.text, v)).collect();
+    n_inst += ok.len() as u64;
+    inst.insert(k.to_string(), ok);
+  }
+  let ipath = format!("{WORK}/instances-{}.json", tier.name());
+  std::fs::write(&ipath, serde_json::to_string(&inst).unwrap()).expect("write instances");
+  let out = match Command::new(format!("{WORK}/target/debug/c17run-{}", tier.name())).arg(&ipath).output() {
+    Ok(o) if o.status.success() => String::from_utf8_lossy(&o.stdout).to_string(),
+    other => {
+      println!("ENGINE-ERROR C17: round-trip program failed: {:?}", other.map(|o| o.status));
+      return 2;
+    }
+  };
+  let mut seen = 0u64;
+  let mut per_schema_reported: BTreeMap<usize, u32> = BTreeMap::new();
+  let mut kinds: BTreeMap<String, u64> = BTreeMap::new();
+  for l in out.lines() {
+    let mut p = l.splitn(4, ' ');
+    let (Some(k), Some(i), Some(tag), rest) = (p.next(), p.next(), p.next(), p.next().unwrap_or("")) else { continue };
+    let (Ok(k), Ok(i)) = (k.parse::<usize>(), i.parse::<usize>()) else { continue };
+    let v = &inst[&k.to_string()][i];
+    seen += 1;
+    let mut report = |kind: &str, observed: String, expected: &str, run: &mut Run| {
+      *kinds.entry(kind.to_string()).or_insert(0) += 1;
+      let n = per_schema_reported.entry(k).or_insert(0);
+      *n += 1;
+      let mut viol = Viol { kind: kind.into(), case: json!({"cddl": ss[k].text, "instance": v}), observed, expected: expected.into(), finding: None };
+      viol.finding = classify(&viol);
+      let _ = n;
+      run.viol(viol);
+    };
+    match tag {
+      "err" => {
+        let what = if rest.starts_with('D') { "valid-instance-not-deserialised" } else { "value-not-serialised" };
+        report(what, trunc(rest), "every instance that validates deserialises into the generated type and serialises back", &mut run);
+      }
+      "ok" => {
+        let back: J = serde_json::from_str(rest).unwrap_or(J::Null);
+        if !same_data(v, &back) {
+          report("round-trip-changes-data", format!("serialised back as {back}"), "a JSON value that denotes the same data", &mut run);
+        } else if !valid(&ss[k].text, &back) {
+          report("round-trip-result-invalid", format!("serialised back as {back}, which the schema rejects"), "the re-serialised value still validates", &mut run);
+        }
+      }
+      _ => {}
+    }
+  }
+  if seen != n_inst {
+    println!("ENGINE-ERROR C17: round-trip program reported {seen} instances, expected {n_inst}");
+    return 2;
+  }
+  run.states = n_inst + broad_n;
+  run.transitions = n_inst * 2 + broad_n * 3;
+  run.traces = n_inst;
+  run.evaluations = n_inst + broad_n + ss.len() as u64;
+  run.nontrivial = n_inst;
+  run.set("schemas_mapping_subset", json!(ss.len()));
+  run.set("schemas_by_family", json!(ss.iter().fold(BTreeMap::new(), |mut m: BTreeMap<&str, u64>, s| { *m.entry(s.family).or_insert(0) += 1; m })));
+  run.set("schemas_compiled", json!(ss.len() - not_compiled.len() - codes.iter().filter(|c| c.is_none()).count()));
+  run.set("candidate_instances", json!(n_cand));
+  run.set("valid_instances_round_tripped", json!(n_inst));
+  run.set("determinism_documents", json!(broad_n + ss.len() as u64));
+  run.set("violations_by_kind", json!(kinds));
+  run.rule = format!(
+    "Mapping subset: {} schemas = every one-field map over 6 key forms (plain, hyphenated, camelCase, the keywords type / match / self) x required / optional x 25 field types of the README \
+     table (prelude types, any, arrays, tables, nullable, nested rule, alias, string-literal choice, type choice, array / table of nested rules), two-field maps over keys whose Rust names \
+     collide after snake-casing / keyword escaping (my-field, my_field, myField, type, type_) x occurrences x types, and 20 top-level shapes (non-map roots, recursion, mutual recursion, \
+     colliding and keyword rule names, nesting, quoted keys). For each: the crate's own generate_all_types (compiled from /repo's working tree) must succeed, give the same text twice in one \
+     process and in a fresh process, declare every type name and every field name of a struct once; all generated modules are compiled together in a scratch crate (rustc errors are \
+     attributed to their module); every instance of the candidate space (each root key absent or holding one of {} universe values; non-map roots: the universe) that the real JSON validator \
+     accepts is deserialised into the generated Root type and serialised back by the compiled code; the result must denote the same data (numbers by value; a null-valued optional member and \
+     an absent one are not told apart) and still validate. Determinism additionally over {} syntactic documents (type terms of weight <= 2, headers, multi-rule, nested, operators).",
+    ss.len(),
+    vals.len(),
+    broad_n
+  );
+  run.finish()
+}
+
+fn broad_family(tier: Tier) -> Vec<String> {
+  use crate::syn::*;
+  let cfg = syntax_cfg(Tier::Quick);
+  let en = crate::terms::Enum::new(&cfg, tier.pick(2, 3));
+  let mut d = docs_types(&en, tier.pick(2, 3));
+  d.extend(docs_headers(&en, 2));
+  d.extend(docs_multi(Tier::Quick));
+  d.extend(crate::c16::docs_nested());
+  d.extend(docs_operators());
+  d.retain(|t| catch(|| cddl::cddl_from_str(t, false).is_ok()).unwrap_or(false));
+  d
+}
+
+/// `mc c17-setup`: compile the dependencies of the scratch crate (setup_cmd; no verdict)
+pub fn setup() -> i32 {
+  std::fs::create_dir_all(WORK).expect("work dir");
+  if std::path::Path::new(&format!("{WORK}/run-quick/src/g/mod.rs")).exists() {
+    return 0;
+  }
+  write_crate(&[], "quick");
+  match build_crate("quick") {
+    Ok(_) => 0,
+    Err(e) => {
+      println!("ENGINE-ERROR C17 setup: {e}");
+      2
+    }
+  }
+}
+
+/// `mc c17-hashes <tier>`: the hash of the generated code of every schema, one per line (run as a second process)
+pub fn hashes(tier: Tier) {
+  quiet_panics();
+  let _g = silence_stderr();
+  for s in schemas(tier) {
+    let c = generate(&s.text).ok();
+    println!("{}", statelist::key(&[&format!("{c:?}")]));
+  }
+  for d in broad_family(tier) {
+    let a = catch(|| generate(&d));
+    println!("{}", statelist::key(&[&format!("{a:?}")]));
+  }
+}
+
+pub fn replay(case: &J) -> Option<Viol> {
+  // generation-level facts are replayed in-process; round-trip cases through a one-module scratch crate
+  let text = case["cddl"].as_str()?;
+  let a = generate(text);
+  let b = generate(text);
+  if a != b {
+    return Some(Viol { kind: "generation-not-deterministic".into(), case: case.clone(), observed: "differs".into(), expected: "identical".into(), finding: None });
+  }
+  let code = match a {
+    Ok(c) => c,
+    Err(e) => return Some(Viol { kind: "generation-fails".into(), case: case.clone(), observed: e, expected: "code".into(), finding: None }),
+  };
+  let (types, structs) = declared_names(&code);
+  if !duplicates(&types).is_empty() || structs.iter().any(|(_, f)| !duplicates(f).is_empty()) {
+    return Some(Viol { kind: "duplicate-name".into(), case: case.clone(), observed: format!("{:?} {:?}", duplicates(&types), structs), expected: "unique names".into(), finding: None });
+  }
+  let Some(inst) = case.get("instance") else {
+    // compile-only replay
+    std::fs::create_dir_all(WORK).ok()?;
+    write_crate(&[(0, module_text(&code))], "replay");
+    return match build_crate("replay") {
+      Ok(b) if b.is_empty() => None,
+      Ok(b) => Some(Viol { kind: "generated-code-does-not-compile".into(), case: case.clone(), observed: format!("{b:?}"), expected: "compiles".into(), finding: None }),
+      Err(e) => Some(Viol { kind: "engine".into(), case: case.clone(), observed: e, expected: "".into(), finding: None }),
+    };
+  };
+  std::fs::create_dir_all(WORK).ok()?;
+  write_crate(&[(0, module_text(&code))], "replay");
+  match build_crate("replay") {
+    Ok(b) if b.is_empty() => {}
+    Ok(b) => return Some(Viol { kind: "generated-code-does-not-compile".into(), case: case.clone(), observed: format!("{b:?}"), expected: "compiles".into(), finding: None }),
+    Err(_) => return None,
+  }
+  let ipath = format!("{WORK}/instances-replay.json");
+  std::fs::write(&ipath, json!({"0": [inst]}).to_string()).ok()?;
+  let o = Command::new(format!("{WORK}/target/debug/c17run-replay")).arg(&ipath).output().ok()?;
+  let out = String::from_utf8_lossy(&o.stdout).to_string();
+  let l = out.lines().next()?;
+  let mut p = l.splitn(4, ' ');
+  let (_, _, tag, rest) = (p.next(), p.next(), p.next()?, p.next().unwrap_or(""));
+  if !valid(text, inst) {
+    return None;
+  }
+  if tag == "err" {
+    return Some(Viol { kind: "valid-instance-not-deserialised".into(), case: case.clone(), observed: rest.into(), expected: "round trip".into(), finding: None });
+  }
+  let back: J = serde_json::from_str(rest).unwrap_or(J::Null);
+  if !same_data(inst, &back) || !valid(text, &back) {
+    return Some(Viol { kind: "round-trip".into(), case: case.clone(), observed: back.to_string(), expected: inst.to_string(), finding: None });
+  }
+  None
 }
